@@ -33,13 +33,18 @@ Theorem C18_chunk_independent : forall chunks a, feed_chunks a chunks = feed a (
 Proof. exact chunk_independent. Qed.
 Print Assumptions C18_chunk_independent.
 
-(** text without escape sequences (any characters but ESC, controls included), arriving while no sequence is open, is
-    written character by character through write_ch; the parser stays in INIT and its memory is untouched.  Rests on a
-    finite check of the regenerated table: ESC is the only exact INIT entry and INIT's any-entry is DoEmit -> INIT. *)
-Theorem C18_plain_text_is_emitted : forall t a, pstate a = S_INIT -> ~ In 27%N t ->
+(** text made of characters the table emits in INIT (DoEmit -> INIT), arriving while no sequence is open, is written
+    character by character through write_ch; the parser stays in INIT and its memory is untouched.  The statement is
+    generic in the regenerated table; the example below instantiates it on the printable ASCII range, CR, LF, BS. *)
+Theorem C18_plain_text_is_emitted : forall t a, pstate a = S_INIT -> Forall emitted t ->
   feed a t = Some (mkAnsi (fold_left write_ch t (scrn a)) S_INIT (stack a)).
 Proof. exact plain_text. Qed.
 Print Assumptions C18_plain_text_is_emitted.
+
+Example C18_printables_are_emitted :
+  forallb (fun c => match get_transition c S_INIT with (A_DoEmit, S_INIT) => true | _ => false end)
+          ([8; 10; 13] ++ map N.of_nat (seq 32 95))%N = true.
+Proof. vm_compute. reflexivity. Qed.
 
 (** an ordinary character (not CR / LF / BS) written while the cursor is left of the last column lands in the cursor's
     cell, the cursor moves one column right, and nothing else changes *)
